@@ -86,6 +86,13 @@ class SimScript:
             for k in range(n):
                 el += r.choice([0.25, 1.0, 1.0, 3.0, 7.5])
                 reps.append([r.randint(0, 40) / 4.0, start_epoch + k + 1, el, r.randint(0, 8) / 4.0])
+            if "p_nonmono" in p and n >= 2 and r.random() < p["p_nonmono"]:
+                # elapsed times that do not increase with the report number (the evaluation of an earlier epoch
+                # finishes later / a noisy time column): the LAST report is not the one with the largest elapsed time
+                els = [x[2] for x in reps]
+                r.shuffle(els)
+                for x, e in zip(reps, els):
+                    x[2] = e
             job = [status, reps]
         self.jobs.append(job)
         return job[0], [list(x) for x in job[1]]
@@ -133,8 +140,10 @@ def make_sim_backend_class():
             job = self.jobs[self.live[trial_id]]
             job["idx_hi"] = self.n_reports.get(trial_id, 0)
             cfg = self.simulator_config
-            job["end"] = job["start"] + (reps[-1][2] if reps else 0.0) + cfg.delay_complete_after_final_report
-            job["last_result_at"] = job["start"] + (reps[-1][2] if reps else 0.0) + cfg.delay_on_trial_result
+            # the run is over when its LATEST report (largest elapsed time, not necessarily the last one) is out
+            t_last = max([x[2] for x in reps], default=0.0)
+            job["end"] = job["start"] + t_last + cfg.delay_complete_after_final_report
+            job["last_result_at"] = job["start"] + t_last + cfg.delay_on_trial_result
             job["status"], job["n"] = status, len(reps)
             return {"Completed": Status.completed, "Failed": Status.failed, "Stopped": Status.stopped}[status], results
 
@@ -411,6 +420,24 @@ def check_sim(params, out):
                         "the resume" % (t, idx, owner[0], current[-1], p),
                         dict(check="callbacks", event="result_of_earlier_run_delivered_after_resume", backend="simulator")))
             break
+    # ---- the scheduler is told "completed" only after ALL reports of that run were delivered -------------------------
+    for p, ev in enumerate(out["trace"]):
+        if ev[0] != "s_complete":
+            continue
+        t = ev[1]
+        mine = [j for j in jobs if j["trial"] == t and j["pos"] <= p]
+        if not mine or mine[-1]["cancelled"] is not None or mine[-1]["idx_lo"] is None:
+            continue
+        j = mine[-1]
+        got = {e[2] for e in out["trace"][:p] if e[0] == "s_result" and e[1] == t}
+        missing = [i for i in range(j["idx_lo"], j["idx_hi"]) if i not in got]
+        if missing:
+            bad.append(("trial %d: on_trial_complete (event %d of the trace) although reports %s of this run (reports %d..%d, "
+                        "job started at simulated time %.3f, its latest report at %.3f) had not been delivered: the run was "
+                        "declared complete before its last report was out" % (t, p, missing, j["idx_lo"], j["idx_hi"] - 1,
+                                                                              j["start"], j["last_result_at"]),
+                        dict(check="callbacks", event="complete_before_all_results_delivered", backend="simulator")))
+            break
     # ---- every end of a run reaches the tuning loop / scheduler --------------------------------------------------
     ended_told = {}
     for ev in out["trace"]:
@@ -454,6 +481,8 @@ def gen_sim_case(rng):
     profile = dict(p_fail=rng.choice([0.05, 0.15, 0.3]), p_stop_ext=rng.choice([0.0, 0.05]), p_early=0.1,
                    outside=rng.choice([0.0, 1.0]), p_pause=0.15, p_stop=0.15, p_none=0.02, p_resume=0.4, p_resume_bad=0.0,
                    p_ckpt=0.1)
+    if sched in ("scripted", "fifo_random") and rng.random() < 0.6:
+        profile["p_nonmono"] = rng.choice([0.3, 0.6])   # non-monotone elapsed times within a job
     if sched in ("sync_hyperband", "dehb"):   # see tuner_real.FEW_FAILURES: one failed job per run at most
         profile.update(max_failed_total=1, p_early=0.0)
         params["criterion"] = dict(max_wallclock_time=float(rng.choice([60, 120, 200])),
